@@ -343,7 +343,23 @@ func run(c *fw.Ctx, idx int) {
 	repin := r.Intn(4) != 0
 	tune := tuneFor(repin)
 	// small append batches make a joiner's catch-up take several rounds
-	rtune := sim.RaftTune{MaxAppendEntries: []int{1, 2, 64}[r.Intn(3)]}
+	rtune := sim.RaftTune{MaxAppendEntries: []int{1, 2, 64}[r.Intn(3)], BackupsRotate: []int{1, 2, 6}[r.Intn(3)]}
+	// one case in twelve follows a script: a peer joins, takes a write, is restarted (its
+	// folder then holds a snapshot), is removed, and the same identity on the same folder
+	// goes through all of that again - the second removal meets the backup of the first
+	type forced struct {
+		kind   string
+		at, on int // where the call is made, whom it concerns (-1: as usual)
+	}
+	var script []forced
+	if idx%12 == 11 {
+		n0 = 2
+		repin = true
+		rtune.BackupsRotate = []int{1, 1, 2}[r.Intn(3)]
+		script = []forced{{"join", 0, 2}, {"pin", 0, -1}, {"restart", -1, 2}, {"remove", 0, 2},
+			{"join", 1, 2}, {"pin", 1, -1}, {"restart", -1, 2}, {"remove", 1, 2}, {"pin", 0, -1}}
+		tune = tuneFor(repin)
+	}
 	var init []peer.ID
 	for i := 0; i < n0; i++ {
 		init = append(init, w.id(i))
@@ -387,6 +403,9 @@ func run(c *fw.Ctx, idx int) {
 	next := n0 // next unused member index (max 4 peers in total at a time, 6 identities)
 	pinSeq := 0
 	steps := r.Range(4, 10)
+	if script != nil {
+		steps = len(script)
+	}
 	for s := 0; s < steps; s++ {
 		in := w.aliveIn()
 		if len(in) == 0 {
@@ -396,6 +415,13 @@ func run(c *fw.Ctx, idx int) {
 		kind := r.Pick("pin", "pin", "unpin", "join", "join", "remove", "remove", "add-present", "remove-absent", "restart")
 		if len(in) >= 4 && kind == "join" {
 			kind = "remove"
+		}
+		on := -1
+		if script != nil {
+			kind, on = script[s].kind, script[s].on
+			if script[s].at >= 0 {
+				at = script[s].at
+			}
 		}
 		switch kind {
 		case "pin":
@@ -434,11 +460,18 @@ func run(c *fw.Ctx, idx int) {
 			c.Eval(fmt.Sprintf("unpin/n%d", len(in)))
 			w.checkPinsets(ctx, "unpin")
 		case "join":
-			if next >= 6 {
+			if next >= 6 && on < 0 {
 				continue
 			}
 			j := next
-			next++
+			if on >= 0 {
+				j = on // a given identity (possibly one that was a member before) on its old folder
+				if j >= next {
+					next = j + 1
+				}
+			} else {
+				next++
+			}
 			// half of the joiners sit behind a slow link for Raft traffic until they have joined
 			var slow time.Duration
 			if r.Intn(2) == 0 {
@@ -678,6 +711,9 @@ func run(c *fw.Ctx, idx int) {
 				continue
 			}
 			victim := in[r.Intn(len(in))]
+			if on >= 0 {
+				victim = on
+			}
 			lead, _ := w.members[at].peer.Node.Consensus.Leader(ctx)
 			role := "follower"
 			if lead == w.id(victim) {
@@ -785,6 +821,9 @@ func run(c *fw.Ctx, idx int) {
 				continue // a 2-peer cluster has no quorum while one is down; restart is covered by C01
 			}
 			victim := in[r.Intn(len(in))]
+			if on >= 0 {
+				victim = on
+			}
 			w.trace = append(w.trace, fmt.Sprintf("restart p%d (cluster of %d)", victim, len(in)))
 			c.Journal("%s", w.trace[len(w.trace)-1])
 			w.members[victim].peer.Node.Close()
